@@ -53,8 +53,12 @@ const (
 	// reads return io.EOF and writes fail. Neither end is marked as closed by its owner - each owner must
 	// still call Close on its end.
 	FaultPeerClose
-	// FaultStall: the link turns into a black hole for this end: every Read and Write of this end
-	// (including blocked ones) blocks until its deadline expires (timeout error) or the end is closed.
+	// FaultStall: the link turns into a black hole for this end: every Read of this end (including a
+	// blocked one) blocks until its deadline expires (timeout error) or the end is closed, whatever the
+	// peer sends; Writes are accepted and vanish (what a TCP socket does while its send buffer has room).
+	// Writes deliberately do not block: crypto/tls and yamux hold a sync.Mutex while they write their
+	// close-notify / go-away with a write deadline, and a goroutine waiting for a sync.Mutex is not
+	// "durably blocked" for synctest, so virtual time could never reach that deadline.
 	FaultStall
 )
 
@@ -399,7 +403,11 @@ func (c *Conn) Write(b []byte) (int, error) {
 			c.end(k, done, err)
 			return done, err
 		}
-		if !c.stalled {
+		if c.stalled {
+			c.end(k, len(b), nil)
+			return len(b), nil
+		}
+		{
 			if c.severed || c.peer.closed {
 				err := &net.OpError{Op: "write", Net: "tcp", Source: c.lna, Addr: c.rna, Err: syscall.EPIPE}
 				c.end(k, done, err)
